@@ -358,6 +358,13 @@ def gen_op(w: World, name, base, table, cur, validated):
             return "as_multiprofile", cat, "-", lambda: cur.as_multiprofile()
         import pabutools.election as _e
 
+        u = rng.random()
+        if u < 0.2:
+            # construction from another ballot with ONE of the two identifying arguments given: the other one is inherited
+            # (round 7, C17-r7B: a shared helper that inherits only when neither keyword is given)
+            return "construct_name_only", cat, "-", lambda: type(cur)(cur, name="renamed")
+        if u < 0.4:
+            return "construct_meta_only", cat, "-", lambda: type(cur)(cur, meta={"given": 1})
         if name in FROZEN:
             # a mutable ballot constructed from the frozen one ("thawing")
             return "construct_mutable", cat, "-", lambda: getattr(_e, name[len("Frozen"):])(cur)
@@ -554,7 +561,16 @@ def run_sequence(w: World, name, length, record):
                     cur = res
             elif cat == "convert":
                 n_der += 1
-                if op in ("frozen", "construct_frozen", "construct_mutable"):
+                if op in ("construct_name_only", "construct_meta_only"):
+                    want_name = "renamed" if op == "construct_name_only" else getattr(cur, "name", None)
+                    want_meta = {"given": 1} if op == "construct_meta_only" else getattr(cur, "meta", None)
+                    if getattr(res, "name", None) != want_name or dict(getattr(res, "meta", None) or {}) != dict(want_meta or {}):
+                        v(op, "attrs", f"{name}(ballot, {'name=...' if op == 'construct_name_only' else 'meta=...'}): name {getattr(res, 'name', None)!r}, meta "
+                                       f"{getattr(res, 'meta', None)!r}; the argument that is not given is the source's ({getattr(cur, 'name', None)!r}, {getattr(cur, 'meta', None)!r})",
+                          impl=brief((getattr(res, "name", None), getattr(res, "meta", None))), expected=brief((want_name, want_meta)))
+                    if type(res).__name__ != name:
+                        v(op, "type", f"{op} returned {type(res).__name__}")
+                elif op in ("frozen", "construct_frozen", "construct_mutable"):
                     bad = shared_attrs_ok(before, res, ["name", "meta"])
                     if bad:
                         v(op, "attrs", f"ballot constructed from another ballot lost {bad[0]}", impl=brief(bad[2]), expected=brief(bad[1]))
